@@ -260,7 +260,7 @@ def run_case(case):
         scan = _mk_scan(case["positions"])
         w = probe.build(scan=scan, lazy=case["lazy"], max_batch=case["max_batch"])
         if case["lazy"]:
-            w = w.compute(scheduler="synchronous")
+            w = w.compute(scheduler="synchronous", progress_bar=False)
         ok, det = _unit(w.array, 2e-5)
         out.append(Res("C05/Probe.build/unit-reciprocal-intensity", ok, f"shape {w.shape}: {det}", True))
         if case.get("rebuild"):
@@ -277,7 +277,7 @@ def run_case(case):
                          normalize=case["normalize"], tilt=_mk_tilt(case["tilt"]))
     w = pw.build(lazy=case["lazy"], max_batch=case["max_batch"])
     if case["lazy"]:
-        w = w.compute(scheduler="synchronous")
+        w = w.compute(scheduler="synchronous", progress_bar=False)
     a = np.asarray(w.array)
     expect_shape = tuple(case["gpts"])
     shape_ok = a.shape[-2:] == expect_shape
